@@ -170,6 +170,7 @@ CLAIMS['C20']['text'] += " (4) X4 server model (threads-server): the peer opens 
 CLAIMS['C09']['text'] = CLAIMS['C09']['text'].replace("32 states per", "40 states per")
 CLAIMS['C10']['note'] += " The length sweep uses single-symbol strings per Huffman code-length class."
 
+CLAIMS['C20']['text'] += " (5) Lock-order monitor (hook H4, on in every check): h2's two mutexes are taken in rank order (stream state, then send buffer) and never twice by the same thread, in every execution explored - the deadlock-freedom clause does not rest on the schedules the baton can produce."
 PROBE = " Every X2 epilogue ends with a generic lost-wake-up probe: at strict quiescence one forced poll of the connection must write nothing."
 for k in ('C02', 'C03', 'C05', 'C14', 'C15', 'C16', 'C17', 'C18', 'C19', 'C20'):
     CLAIMS[k]['text'] += PROBE
